@@ -106,10 +106,14 @@ TAssign     == IsEvent("assign")     /\ Assign(I, J) /\ Matches /\ UNCHANGED kin
 TMoveCtor   == IsEvent("movector")   /\ MoveCtor(I, J) /\ Matches /\ UNCHANGED kindv
 TMoveAssign == IsEvent("moveassign") /\ MoveAssign(I, J) /\ Matches /\ UNCHANGED kindv
 TDestroy    == IsEvent("destroy")    /\ Destroy(I) /\ Matches /\ UNCHANGED kindv
+TReindexInto == IsEvent("reindexinto") /\ LET rot == E.rot  F(q) == (q + rot) % 3 IN ReindexInto(I, J, F, E.addFinal)
+                /\ Matches /\ UNCHANGED kindv
+TCopyTrans  == IsEvent("copytrans")  /\ LET P == Rng(E.ps)  S(r) == r[3] \in P IN CopyTrans(I, J, S)
+                /\ Matches /\ UNCHANGED kindv
 TDerive     == IsEvent("derive")     /\ Derive(I, Logged(E)[I]) /\ Matches /\ DeriveOK /\ UNCHANGED kindv
 TQuery      == IsEvent("query")      /\ Query /\ Matches /\ QueryOK /\ UNCHANGED kindv
 TNext == \/ TReset \/ TNew \/ TAdd \/ TFinal \/ TStart \/ TFinals \/ TEraseFinal \/ TClear \/ TCopyCtor
-         \/ TAssign \/ TMoveCtor \/ TMoveAssign \/ TDestroy \/ TDerive \/ TQuery
+         \/ TAssign \/ TMoveCtor \/ TMoveAssign \/ TDestroy \/ TDerive \/ TQuery \/ TReindexInto \/ TCopyTrans
 TSpec == TInit /\ [][TNext]_allvars
 
 \* one state per consumed line plus the initial state
